@@ -25,6 +25,10 @@ def DB_SCN(names):
     return [{"cmd": "db-scenario", "mode": "api", "args": ["--name", n], "cases": {"quick": 1, "thorough": 1}, "corpus": True} for n in names]
 
 IMG_RUN = {"cmd": "image", "mode": "image", "cases": {"quick": 24, "thorough": 400}, "shards": {"quick": 8, "thorough": 16}}
+# directed replay (corpus): history 18 of image seed 1000 — 1616 fat-valued keys, half of them under a 200-bit common prefix;
+# the commit that splits the branch node writes a separator whose last bit is lost (see KNOWN finding candidate F13 in the report)
+IMG_CORPUS = [{"cmd": "image", "mode": "image", "args": ["--only", "18"], "fixed_seed": 1000, "cases": {"quick": 19, "thorough": 19},
+               "shards": {"quick": 1, "thorough": 1}, "corpus": True}]
 IMG_TB = ["Lean decoders of the on-disk formats (lean/NomtModel/Store/Img*.lean) are hand-written from the layout comments of the Rust sources; they are tied to the real files by the image run (every snapshot of a real directory must decode to the oracle's committed map)",
           "BLAKE3 (arbitrary length) and XXH3-64 (32-byte input, seeded) implemented in Lean, validated by the same run (value hashes, merkle nodes, meta-byte tags and probe positions of real directories)",
           "harness oracle: BTreeMap of the committed state kept by the history engine (harness/src/db.rs), written to expected.txt",
@@ -39,7 +43,7 @@ IMG_RULE = ("cases = generated histories of the history engine (session / overla
 
 PROPS = {
     "C16": {
-        "runs": [dict(IMG_RUN)],
+        "runs": IMG_CORPUS + [dict(IMG_RUN)],
         "rule": IMG_RULE,
         "trusted_base": IMG_TB, "assumptions": IMG_ASSUME,
     },
